@@ -239,7 +239,7 @@ func resultCell(fn *ssa.Function, i int) *ssa.Alloc {
 
 // ruleC05LessTable: the ORDER BY comparator.
 func ruleC05LessTable(c *Ctx) {
-	c.Doc("c05.less-table", "the ORDER BY comparator (sort.go Compare): no keys => not less; NULL first key => not less; NULL second (first non-NULL) => less, in both directions; otherwise with res = compare.Compare(first, second): res==0 => the result of the same comparator on the remaining keys with the same slice, i, j; else less <=> res<0 ascending, res>0 descending; first/second are read from slice[i]/slice[j] with the first key; the direction flag is orderBy[0].Value")
+	c.Doc("c05.less-table", "the ORDER BY comparator (sort.go Compare): no keys => not less; both values NULL => the key ties and the remaining keys decide; NULL first (second non-NULL) => not less; NULL second (first non-NULL) => less, in both directions; otherwise with res = compare.Compare(first, second): res==0 => the result of the same comparator on the remaining keys with the same slice, i, j; else less <=> res<0 ascending, res>0 descending; first/second are read from slice[i]/slice[j] with the first key; the direction flag is orderBy[0].Value")
 	var cmpFn *ssa.Function
 	for _, f := range c.P.pkgFuncs(modPath) {
 		if f.Parent() != nil || f.Signature.Params().Len() != 4 || f.Signature.Results().Len() != 2 {
@@ -332,6 +332,9 @@ func ruleC05LessTable(c *Ctx) {
 		switch {
 		case isTrueC(m["empty"]):
 			return cFalse, true
+		case isTrueC(m["firstNil"]) && isTrueC(m["secondNil"]):
+			// two rows without a value for this key tie on it: the remaining keys decide
+			return m["rest"], true
 		case isTrueC(m["firstNil"]):
 			return cFalse, true
 		case isTrueC(m["secondNil"]):
@@ -699,6 +702,11 @@ func (c *Ctx) lessTableLoopForm(f *ssa.Function, lp *loopInfo, key string) {
 		switch {
 		case m["firstNil"] == nil:
 			decided = false
+		case isTrueC(m["firstNil"]) && m["secondNil"] == nil:
+			// a NULL first value alone does not decide: against another NULL the key ties
+			decided = false
+		case isTrueC(m["firstNil"]) && isTrueC(m["secondNil"]):
+			want = "next"
 		case isTrueC(m["firstNil"]):
 			want = "false"
 		case m["secondNil"] == nil:
